@@ -194,13 +194,23 @@ def msgMonitors (cfgL : List Product) (prev real : State) (m : Msg) (e : Env) : 
     let expU := out - fee - (if p.denomOut = p.denomIn then taken else 0)
     (if du = expU then [] else [s!"mint_delivers\tuser got {du}, recorded principal less fee is {expU}"]) ++
     (if dc = fee then [] else [s!"mint_delivers\tcollector got {dc}, fee is {fee}"])
+  -- the exact (unrounded) inequality of `C03.ratioOk_exact` / `ratioOk_exact_scales`, on the REAL amounts
+  let exact (p : Product) (a b : Int) (what : String) : List String :=
+    match e.priceIn, debtPrice p e with
+    | some pin, some pout =>
+      (if 0 < p.decIn ∧ 0 < p.decOut ∧ 1 ≤ 2 * p.minCr ∧ ¬ ExactRatio p pin pout a b then
+         [s!"ratio_exact\t{what}: exact inequality with rounding slack fails for in={a} debt={b} pin={pin} pout={pout}"] else []) ++
+      (if 0 < p.decIn ∧ 0 < p.decOut ∧ Dec.P % p.decIn = 0 ∧ Dec.P % p.decOut = 0 ∧ ¬ ExactRatioScales p pin pout a b then
+         [s!"ratio_exact\t{what}: exact ratio below minCr - 1/2 ulp for in={a} debt={b} pin={pin} pout={pout}"] else [])
+    | _, _ => []
   let ratio (p : Product) (vid : Nat) : List String :=
     if e.esm then [] else
     match real.vaults.find? (·.id = vid) with
     | none => []
     | some v =>
       match calcCR p e v.amountIn (v.amountOut + v.interest + v.closingFee) with
-      | some r => if r ≥ p.minCr then [] else [s!"ratio_ok\tvault {vid}: ratio {r} < minCr {p.minCr}"]
+      | some r => (if r ≥ p.minCr then [] else [s!"ratio_ok\tvault {vid}: ratio {r} < minCr {p.minCr}"]) ++
+          exact p v.amountIn (v.amountOut + v.interest + v.closingFee) s!"vault {vid}"
       | none => [s!"price_fail_closed\tvault {vid}: accepted although the ratio cannot be computed (price inactive)"]
   match m with
   | .create f _ pr i o =>
@@ -209,7 +219,7 @@ def msgMonitors (cfgL : List Product) (prev real : State) (m : Msg) (e : Env) : 
     | some p =>
       delivers p f o i ++
       (match calcCR p e i o with
-       | some r => if r ≥ p.minCr then [] else [s!"ratio_ok\tcreate: ratio {r} < minCr {p.minCr}"]
+       | some r => (if r ≥ p.minCr then [] else [s!"ratio_ok\tcreate: ratio {r} < minCr {p.minCr}"]) ++ exact p i o "create"
        | none => ["price_fail_closed\tcreate accepted although the ratio cannot be computed (price inactive)"])
   | .draw f _ pr v x => match cfg pr with
     | none => []
